@@ -9,7 +9,7 @@ RULE = ('class = (d class, L in {0,1,2,3,64}, |K| class, rounds class, number of
 ASSUMPTIONS = ['own MD6 reference (self-tested on the three examples of the MD6 report, md6-256("abc") and md6-512(""))',
                'left-justified output for d mod 8 != 0 (reference trim_hashval; what crysp\'s own PAR path does)']
 ANCHORS = [('md.py', 'MD6.__call__'), ('md.py', 'MD6.PAR'), ('md.py', 'MD6.SEQ'), ('md.py', 'MD6.f'), ('md.py', 'MD6.__init__')]
-REQUIRED = ['md6==spec', 'digest-length']
+REQUIRED = ['siblings:md6==spec', 'md6==spec', 'digest-length']
 NSHARDS = 14
 SAN = {'quick': (2, 60), 'thorough': (2, 60)}
 CASE_CPU_S = 400
@@ -47,6 +47,8 @@ def cases(tier, rng):
     for ml in ((65 * 512, 64 * 512 + 1, 100 * 384) if tier == 'quick' else (65 * 512, 64 * 512, 64 * 512 + 1, 100 * 384, 257 * 512)):
         for L in (64, 1, 0, 2):
             yield {'k': 'md6', 'd': [256, 7, 512, 160][L % 4], 'L': L, 'kl': 5 if L == 1 else 0, 'ml': ml, 'r': 1, 'bl': None}
+    for j in range(16 if tier == 'quick' else 120):
+        yield {'k': 'siblings', 'j': j, 'd': 0, 'L': 0, 'kl': 0, 'ml': 0, 'r': 2, 'bl': None}
     for d in (range(1, 513) if tier == 'thorough' else range(1, 513, 37)):
         yield {'k': 'md6', 'd': d, 'L': [64, 0, 1][d % 3], 'kl': d % 5, 'ml': [0, 5, 600][d % 3], 'r': 2, 'bl': None}
 
@@ -56,6 +58,19 @@ def nblk_class(ml):
 
 def run(case, ctx, rng):
     from crysp.md import MD6
+    if case['k'] == 'siblings':
+        from vmon.core import siblings
+        ctx.cls(('siblings', case['j'] % 4))
+        specs = []
+        for t in range(4):
+            d = rng.choice([1, 7, 128, 160, 224, 256, 384, 512]); L = rng.choice(LS); key = rng.randbytes(rng.choice(KLS)); r = rng.choice([1, 2, 3])
+            M1 = rng.randbytes(rng.choice([0, 3, 513, 1537, 2049])); M2 = rng.randbytes(5)
+            def new(d=d, key=key, L=L, r=r):
+                h = MD6(d, key, L); h.rounds = r; return h
+            specs.append(('MD6(d=%d,|K|=%d,L=%d,r=%d)' % (d, len(key), L, r), new, [('h(M1)', (lambda o, M=M1: o(M)), rm.md6(d, M1, None, key, L, r)),
+                                                                                  ('h(M2,bitlen=33)', (lambda o, M=M2: o(M, 33)), rm.md6(d, M2, 33, key, L, r))]))
+        siblings(ctx, rng, 'siblings:md6==spec', specs, late=specs.pop())
+        return
     d, L, kl, ml, r, bl = (case[x] for x in ('d', 'L', 'kl', 'ml', 'r', 'bl'))
     M = rng.randbytes(ml); key = rng.randbytes(kl)
     ctx.cls((d if d in DS else 'd%%8=%d' % (d % 8), L, kl, r or 'default', nblk_class(ml), ml % 512 in (0, 1, 511), ml % 384 in (0, 1, 383), (bl or 0) % 8))
